@@ -5,9 +5,21 @@ import Mathlib.Algebra.BigOperators.Ring.Finset
 import Mathlib.Tactic.Ring
 import Mathlib.Tactic.Linarith
 import Mathlib.Tactic.NormNum
+import Mathlib.Tactic.LinearCombination
+import Mathlib.Tactic.FieldSimp
 
 /-!
 # C18 — PDE models solve the discretised equations given and observe them consistently
+
+Every theorem is about the executable definitions of `CuqiVerif/Model/C18.lean` (the ones
+`Driver/C18.lean` runs at `R = Rat`), for an arbitrary commutative ring `R`, arbitrary dimension
+`n`, arbitrary forms (functions of the time, the parameter already applied — `form t =
+PDE_form(parameter, t)`), arbitrary time grids (lists, not assumed uniform or even increasing) and
+arbitrary solvers.  A solver enters through its certificate `SolverCorrect` ("what it returns
+solves the system it was given"); the driver checks that certificate on every solve and the
+harness checks it on the implementation's floating-point results.
+
+`levels.getD k #[]` is column `k` of the array `u` returned by `solve()`, read with `rd`.
 -/
 open Finset
 
@@ -18,13 +30,548 @@ namespace CuqiVerif.C18
 
 variable {R : Type} [CommRing R]
 
-/-- level 0 is the initial condition -/
-theorem forward_level_zero {I : Type} (n : ℕ) (form : R → Form R) (solver : Mat R → Vec R → SolverRet (Vec R) I)
-    (t0 : R) (rest : List R) (levels : List (Vec R)) (info : Option (List I))
-    (h : solveTime n .forward form solver (t0 :: rest) = .ok (levels, info)) (i : ℕ) (hi : i < n) :
-    levels.getD 0 (fun _ => 0) i = (form t0).ic i := by
+/-! ## 1. `_solve_linear_system`: solvers and their extra return values -/
+
+/-- a solver returning only the solution: `info` is `None` -/
+theorem unpack_plain {S I : Type} (x : S) : unpack (.plain x : SolverRet S I) = .ok (x, none) := rfl
+
+/-- a solver returning a tuple: the solution is its first entry, `info` the rest, however many -/
+theorem unpack_tuple {S I : Type} (x : S) (extras : List I) :
+    unpack (.tuple x extras : SolverRet S I) = .ok (x, some extras) := rfl
+
+/-- the solution taken from the solver's answer does not depend on the extra return values -/
+theorem unpack_solution_ignores_extras {S I : Type} (x : S) (e₁ e₂ : List I) :
+    (unpack (.tuple x e₁ : SolverRet S I)).map (·.1) = (unpack (.tuple x e₂ : SolverRet S I)).map (·.1)
+    ∧ (unpack (.tuple x e₁ : SolverRet S I)).map (·.1) = (unpack (.plain x : SolverRet S I)).map (·.1) :=
+  ⟨rfl, rfl⟩
+
+example : unpack (.tuple (3 : ℤ) [7, 8] : SolverRet ℤ ℤ) = .ok (3, some [7, 8]) := rfl
+
+/-! ## 2. steady state -/
+
+/-- **steady_solves.**  If the linear solver is correct, what `assemble(p); solve()` returns
+    satisfies the assembled system `A(p) u = b(p)` — for every form, parameter and dimension. -/
+theorem steady_solves {P I : Type} (n : ℕ) (s : Steady P R I) (hs : SolverCorrect n s.solver) (p : P)
+    (u : Vec R) (info : Option (List I)) (h : (s.assemble p).solve = .ok (u, info)) (i : ℕ) (hi : i < n) :
+    ∑ j ∈ range n, (s.form p).op i j * u j = (s.form p).rhs i := by
+  simp only [Steady.assemble, Steady.solve] at h
+  exact hs _ _ _ _ h i hi
+
+/-- `solve()` before any `assemble` is refused -/
+theorem steady_requires_assemble {P I : Type} (s : Steady P R I) (h : s.assembled = none) :
+    s.solve = .error .notAssembled := by
+  simp [Steady.solve, h]
+
+/-- after re-assembling, `solve()` uses the parameter supplied last (no stale operator) -/
+theorem steady_uses_last_assembled {P I : Type} (s : Steady P R I) (p₁ p₂ : P) :
+    ((s.assemble p₁).assemble p₂).solve = (s.assemble p₂).solve := rfl
+
+/-- the `info` reported by the steady solve is the solver's tuple of extra values -/
+theorem steady_info {P I : Type} (s : Steady P R I) (p : P) (x : Vec R) (extras : List I)
+    (h : s.solver (s.form p).op (s.form p).rhs = .tuple x extras) :
+    (s.assemble p).solve = .ok (x, some extras) := by
+  simp [Steady.assemble, Steady.solve, h, unpack]
+
+/-- a correct 1×1 solver (non-vacuity of `SolverCorrect`) -/
+def divSolver (A : Mat ℚ) (b : Vec ℚ) : SolverRet (Vec ℚ) ℚ :=
+  if A 0 0 = 0 then .raised else .tuple (fun _ => b 0 / A 0 0) [b 0]
+
+theorem divSolver_correct : SolverCorrect 1 divSolver := by
+  intro A b x info h i hi
+  have hi0 : i = 0 := by omega
+  subst hi0
+  unfold divSolver at h
+  split at h
+  · simp [unpack] at h
+  · rename_i hA
+    simp only [unpack, Except.ok.injEq, Prod.mk.injEq] at h
+    obtain ⟨hx, _⟩ := h
+    subst hx
+    simp
+    field_simp
+
+example : ((({ form := fun (p : ℚ) => ⟨fun _ _ => 2 * p, fun _ => 6⟩, solver := divSolver } :
+    Steady ℚ ℚ ℚ).assemble 3).solve).map (fun r => r.1 0) = .ok 1 := by
+  norm_num [Steady.assemble, Steady.solve, divSolver, unpack, Except.map]
+
+/-! ## 3. time stepping -/
+
+/-- the returned array has one column per entry of the time grid (both methods) -/
+theorem levels_length {I : Type} (n : ℕ) (m : Method) (form : R → Form R)
+    (solver : Mat R → Vec R → SolverRet (Vec R) I) (ts : List R) (levels : List (Array R))
+    (info : Option (List I)) (h : solveTime n m form solver ts = .ok (levels, info)) :
+    levels.length = ts.length := by
+  cases ts with
+  | nil => simp [solveTime] at h
+  | cons t0 rest =>
+    cases m with
+    | forward =>
+      simp only [solveTime, Except.ok.injEq, Prod.mk.injEq] at h
+      obtain ⟨h, _⟩ := h
+      subst h
+      simp [fwdLevels_length]
+    | backward =>
+      simp only [solveTime] at h
+      split at h
+      · cases h
+      · rename_i steps hsteps
+        split at h
+        · cases h
+        · simp only [Except.ok.injEq, Prod.mk.injEq] at h
+          obtain ⟨h, _⟩ := h
+          subst h
+          simp [bwdLevels_length _ _ _ _ _ _ _ hsteps]
+    | otherCase => simp [solveTime] at h
+
+/-- column 0 is the initial condition the form returns at the *first* grid time (both methods) -/
+theorem level_zero_initial_condition {I : Type} (n : ℕ) (m : Method) (form : R → Form R)
+    (solver : Mat R → Vec R → SolverRet (Vec R) I) (t0 : R) (rest : List R) (levels : List (Array R))
+    (info : Option (List I)) (h : solveTime n m form solver (t0 :: rest) = .ok (levels, info))
+    (i : ℕ) (hi : i < n) :
+    rd (levels.getD 0 #[]) i = (form t0).ic i := by
+  cases m with
+  | forward =>
+    simp only [solveTime, Except.ok.injEq, Prod.mk.injEq] at h
+    obtain ⟨h, _⟩ := h
+    subst h
+    simp [rd_tab _ _ _ hi]
+  | backward =>
+    simp only [solveTime] at h
+    split at h
+    · cases h
+    · split at h
+      · cases h
+      · simp only [Except.ok.injEq, Prod.mk.injEq] at h
+        obtain ⟨h, _⟩ := h
+        subst h
+        simp [rd_tab _ _ _ hi]
+  | otherCase => simp [solveTime] at h
+
+/-- **euler_forward_recurrence.**  Every stored level of the forward method satisfies the explicit
+    Euler relation `u_{k+1} = u_k + Δt_k (A(t_k) u_k + b(t_k))`, `Δt_k = t_{k+1} - t_k`, with the
+    operator and source assembled at `t_k` — for every time grid (uniform or not), every form and
+    dimension. -/
+theorem euler_forward_recurrence {I : Type} (n : ℕ) (form : R → Form R)
+    (solver : Mat R → Vec R → SolverRet (Vec R) I) (ts : List R) (levels : List (Array R))
+    (info : Option (List I)) (h : solveTime n .forward form solver ts = .ok (levels, info))
+    (k : ℕ) (hk : k + 1 < ts.length) (i : ℕ) (hi : i < n) :
+    rd (levels.getD (k + 1) #[]) i =
+      rd (levels.getD k #[]) i + (ts.getD (k + 1) 0 - ts.getD k 0) *
+        ((∑ j ∈ range n, (form (ts.getD k 0)).op i j * rd (levels.getD k #[]) j) + (form (ts.getD k 0)).src i) := by
+  cases ts with
+  | nil => simp at hk
+  | cons t0 rest =>
+    simp only [solveTime, Except.ok.injEq, Prod.mk.injEq] at h
+    obtain ⟨h, _⟩ := h
+    subst h
+    have hk' : k < rest.length := by simpa using hk
+    rw [fwdLevels_step n form rest t0 _ k hk', fwdStep_apply _ _ _ _ _ hi]
+
+/-- the forward method never consults the linear solver and reports `info = None` -/
+theorem forward_ignores_solver {I : Type} (n : ℕ) (form : R → Form R)
+    (s₁ s₂ : Mat R → Vec R → SolverRet (Vec R) I) (ts : List R) :
+    solveTime n .forward form s₁ ts = solveTime n .forward form s₂ ts
+    ∧ ∀ levels info, solveTime n .forward form s₁ ts = .ok (levels, info) → info = none := by
+  refine ⟨by cases ts <;> rfl, ?_⟩
+  intro levels info h
+  cases ts with
+  | nil => simp [solveTime] at h
+  | cons t0 rest =>
+    simp only [solveTime, Except.ok.injEq, Prod.mk.injEq] at h
+    exact h.2.symm
+
+/-- **euler_backward_recurrence.**  With a correct linear solver (whatever else it returns), every
+    stored level of the backward method satisfies the implicit Euler relation
+    `u_{k+1} = u_k + Δt_k (A(t_{k+1}) u_{k+1} + b(t_{k+1}))`, `Δt_k = t_{k+1} - t_k`, with the operator
+    and source assembled at the *new* time — for every time grid, form and dimension. -/
+theorem euler_backward_recurrence {I : Type} (n : ℕ) (form : R → Form R)
+    (solver : Mat R → Vec R → SolverRet (Vec R) I) (hs : SolverCorrect n solver) (ts : List R)
+    (levels : List (Array R)) (info : Option (List I))
+    (h : solveTime n .backward form solver ts = .ok (levels, info))
+    (k : ℕ) (hk : k + 1 < ts.length) (i : ℕ) (hi : i < n) :
+    rd (levels.getD (k + 1) #[]) i =
+      rd (levels.getD k #[]) i + (ts.getD (k + 1) 0 - ts.getD k 0) *
+        ((∑ j ∈ range n, (form (ts.getD (k + 1) 0)).op i j * rd (levels.getD (k + 1) #[]) j)
+          + (form (ts.getD (k + 1) 0)).src i) := by
+  cases ts with
+  | nil => simp at hk
+  | cons t0 rest =>
+    simp only [solveTime] at h
+    split at h
+    · cases h
+    · rename_i steps hsteps
+      split at h
+      · cases h
+      · simp only [Except.ok.injEq, Prod.mk.injEq] at h
+        obtain ⟨h, _⟩ := h
+        subst h
+        have hk' : k < rest.length := by simpa using hk
+        obtain ⟨x, inf, hx, hlev, _⟩ := bwdLevels_step n form solver rest t0 _ steps hsteps k hk'
+        have hcert := hs _ _ _ _ hx
+        have hrel := bwd_relation n _ _ _ x hcert i hi
+        rw [hlev, rd_tab _ _ _ hi, hrel]
+        congr 2
+        congr 1
+        exact Finset.sum_congr rfl fun j hj => by rw [rd_tab _ _ _ (mem_range.mp hj)]
+
+/-- the `info` of the backward method is the `info` of the *last* linear solve -/
+theorem backward_info_is_last_solve {I : Type} (n : ℕ) (form : R → Form R)
+    (solver : Mat R → Vec R → SolverRet (Vec R) I) (t0 : R) (rest : List R)
+    (levels : List (Array R)) (info : Option (List I))
+    (h : solveTime n .backward form solver (t0 :: rest) = .ok (levels, info)) :
+    ∃ steps, bwdLevels n form solver t0 (tab n (form t0).ic) rest = .ok steps
+      ∧ (steps.getLast?.map (·.2)) = some info := by
   simp only [solveTime] at h
-  cases h
-  simp [force_apply _ _ _ hi]
+  split at h
+  · cases h
+  · rename_i steps hsteps
+    refine ⟨steps, hsteps, ?_⟩
+    split at h
+    · cases h
+    · rename_i last hlast
+      simp only [Except.ok.injEq, Prod.mk.injEq] at h
+      simp [hlast, h.2]
+
+/-- two solvers that return the same solutions (but any extra values) produce the same levels -/
+theorem bwdLevels_extras_irrelevant {I J : Type} (n : ℕ) (form : R → Form R)
+    (s₁ : Mat R → Vec R → SolverRet (Vec R) I) (s₂ : Mat R → Vec R → SolverRet (Vec R) J)
+    (hsame : ∀ A b, (unpack (s₁ A b)).map (·.1) = (unpack (s₂ A b)).map (·.1)) :
+    ∀ (rest : List R) (t : R) (u : Array R),
+      (bwdLevels n form s₁ t u rest).map (fun l => l.map (·.1)) = (bwdLevels n form s₂ t u rest).map (fun l => l.map (·.1)) := by
+  intro rest
+  induction rest with
+  | nil => intro t u; rfl
+  | cons t' rest ih =>
+    intro t u
+    have h := hsame (bwdMat (t' - t) (form t')) (bwdRhs (t' - t) (form t') (rd u))
+    simp only [bwdLevels]
+    cases h1 : unpack (s₁ (bwdMat (t' - t) (form t')) (bwdRhs (t' - t) (form t') (rd u))) with
+    | error e1 =>
+      cases h2 : unpack (s₂ (bwdMat (t' - t) (form t')) (bwdRhs (t' - t) (form t') (rd u))) with
+      | error e2 => rw [h1, h2] at h; simpa [Except.map] using h
+      | ok r2 => rw [h1, h2] at h; simp [Except.map] at h
+    | ok r1 =>
+      cases h2 : unpack (s₂ (bwdMat (t' - t) (form t')) (bwdRhs (t' - t) (form t') (rd u))) with
+      | error e2 => rw [h1, h2] at h; simp [Except.map] at h
+      | ok r2 =>
+        rw [h1, h2] at h
+        obtain ⟨x1, i1⟩ := r1
+        obtain ⟨x2, i2⟩ := r2
+        have hx : x1 = x2 := by simpa [Except.map] using h
+        subst hx
+        have := ih t' (tab n x1)
+        cases h3 : bwdLevels n form s₁ t' (tab n x1) rest with
+        | error e3 =>
+          cases h4 : bwdLevels n form s₂ t' (tab n x1) rest with
+          | error e4 => rw [h3, h4] at this; simpa [Except.map, h3, h4] using this
+          | ok l4 => rw [h3, h4] at this; simp [Except.map] at this
+        | ok l3 =>
+          cases h4 : bwdLevels n form s₂ t' (tab n x1) rest with
+          | error e4 => rw [h3, h4] at this; simp [Except.map] at this
+          | ok l4 =>
+            rw [h3, h4] at this
+            have hl : l3.map (·.1) = l4.map (·.1) := by simpa [Except.map] using this
+            simp [Except.map, hl, h3, h4]
+
+/-- inputs on which the pinned code dies on the unbound `info` (loud, no value is returned):
+    backward Euler on a one-point time grid, and a `method` string that differs from the two
+    literals only in case -/
+theorem unbound_info_refusals {I : Type} (n : ℕ) (form : R → Form R)
+    (solver : Mat R → Vec R → SolverRet (Vec R) I) (t0 : R) (ts : List R) :
+    solveTime n .backward form solver [t0] = .error .unboundLocal
+    ∧ (ts ≠ [] → solveTime n .otherCase form solver ts = .error .unboundLocal) := by
+  refine ⟨rfl, ?_⟩
+  intro h
+  cases ts with
+  | nil => exact absurd rfl h
+  | cons a l => rfl
+
+/-- non-vacuity: a 1-D heat-type form on the non-uniform grid `0, 1/2, 2`, both methods -/
+def demoForm (t : ℚ) : Form ℚ := ⟨fun _ _ => -1 - t, fun _ => t, fun _ => 4⟩
+
+example : ∃ levels, solveTime 1 .forward demoForm divSolver [0, 1/2, 2] = .ok (levels, none)
+    ∧ rd (levels.getD 2 #[]) 0 = rd (levels.getD 1 #[]) 0 + (2 - 1/2) * ((-1 - 1/2) * rd (levels.getD 1 #[]) 0 + 1/2) := by
+  refine ⟨_, rfl, ?_⟩
+  norm_num [rd, tab, fwdLevels, fwdStep, sumTo, demoForm, eye]
+
+example : (solveTime 1 .backward demoForm divSolver [0, 1/2, 2]).map (fun r => (r.1.map fun u => rd u 0, r.2))
+    = .ok ([4, 17/7, 76/77], some [38/7]) := by
+  norm_num [solveTime, bwdLevels, divSolver, unpack, bwdMat, bwdRhs, demoForm, eye, Except.map, rd, tab]
+
+/-! ## 4. grids and the branch decision of `observe` -/
+
+section grids
+variable {G : Type} [DecidableEq G]
+
+theorem compareGrid_comm (a b : Option (List G)) : compareGrid a b = compareGrid b a := by
+  cases a <;> cases b <;> simp [compareGrid]
+  rename_i x y
+  by_cases h : x.length = y.length
+  · simp [h, eq_comm]
+  · have h' : ¬ y.length = x.length := fun e => h e.symm
+    simp [h, h']
+
+/-- for two present grids the flag means: same nodes -/
+theorem compareGrid_some_iff (a b : List G) : compareGrid (some a) (some b) = true ↔ a = b := by
+  simp only [compareGrid]
+  constructor
+  · intro h
+    split at h
+    · simpa using h
+    · simp at h
+  · intro h
+    subst h
+    simp
+
+/-- after *any* assignment to `grid_sol` the flag describes the grids currently stored -/
+theorem setSol_flag (g : Grids G) (v : Option (List G)) :
+    (g.setSol v).equal = compareGrid (g.setSol v).sol (g.setSol v).obs := rfl
+
+/-- after *any* assignment to `grid_obs` the flag describes the grids currently stored -/
+theorem setObs_flag (g : Grids G) (v : Option (List G)) :
+    (g.setObs v).equal = compareGrid (g.setObs v).sol (g.setObs v).obs := by
+  simp only [Grids.setObs]
+  exact compareGrid_comm _ _
+
+/-- **the flag is never stale**: after the constructor and any sequence of grid assignments,
+    `grids_equal` is `_compare_grid` of the two grids stored at that moment -/
+theorem grids_flag_invariant (a b : Option (List G)) (ops : List (GridOp G)) :
+    ((Grids.init a b).run ops).equal = compareGrid ((Grids.init a b).run ops).sol ((Grids.init a b).run ops).obs := by
+  have key : ∀ (ops : List (GridOp G)) (g : Grids G), g.equal = compareGrid g.sol g.obs →
+      (g.run ops).equal = compareGrid (g.run ops).sol (g.run ops).obs := by
+    intro ops
+    induction ops with
+    | nil => intro g hg; exact hg
+    | cons op rest ih =>
+      intro g hg
+      cases op with
+      | setSol v => exact ih _ (setSol_flag g v)
+      | setObs v => exact ih _ (setObs_flag g v)
+  exact key ops _ (setObs_flag _ b)
+
+/-- `grid_obs=None` means "observe on the solution grid": it is stored as the solution grid and the
+    flag is set -/
+theorem grid_obs_defaults_to_grid_sol (a : Option (List G)) :
+    (Grids.init a none).obs = a ∧ (Grids.init a none).equal = true := by
+  cases a <;> simp [Grids.init, Grids.setSol, Grids.setObs, compareGrid]
+
+/-- the no-interpolation branch is taken exactly when the flag is set and every observation time is
+    the final time -/
+theorem direct_branch_iff (g : Grids G) (steps tobs : List G) (ndim : ℕ) :
+    branchTime g steps tobs ndim = .direct ↔ g.equal = true ∧ allFinal steps tobs = true := by
+  unfold branchTime
+  cases hE : g.equal <;> cases hA : allFinal steps tobs <;> simp <;> split <;> simp
+
+theorem allFinal_iff (steps tobs : List G) :
+    allFinal steps tobs = true ↔ ∃ T, steps.getLast? = some T ∧ ∀ t ∈ tobs, t = T := by
+  unfold allFinal
+  cases h : steps.getLast? with
+  | none => simp
+  | some T =>
+    simp only [List.all_eq_true, decide_eq_true_eq, Option.some.injEq, exists_eq_left']
+    constructor
+    · intro h' t ht; exact (h' t ht).symm
+    · intro h' t ht; exact (h' t ht).symm
+
+/-- `'final'` (in any case: the argument of `.str` is `time_obs.lower()`) resolves to the
+    one-element list holding the last grid time, `'all'` to the grid; other strings and `None` are
+    refused -/
+theorem resolveTimeObs_strings (steps : List G) (T : G) (h : steps.getLast? = some T) :
+    resolveTimeObs steps (.str "final") = .ok [T]
+    ∧ resolveTimeObs steps (.str "all") = .ok steps
+    ∧ resolveTimeObs steps (.str "every") = .error .valueError
+    ∧ resolveTimeObs steps .noneVal = .error .valueError := by
+  have hd : steps.drop (steps.length - 1) = [T] := by
+    rw [List.getLast?_eq_some_iff] at h
+    obtain ⟨ys, rfl⟩ := h
+    simp
+  refine ⟨?_, ?_, ?_, rfl⟩ <;> simp [resolveTimeObs, hd]
+
+end grids
+
+/-! ## 5. observation -/
+
+section observe
+variable {G : Type} [DecidableEq G] [Zero G] [Add G] [Mul G]
+
+/-- **observe_restriction_exact.**  On the no-interpolation branch (with both grids present) the
+    observation grid *is* the solution grid and the pre-map observation is exactly the last stored
+    column of the solution — no interpolation is involved. -/
+theorem observe_restriction_exact (g : Grids G) (hinv : g.equal = compareGrid g.sol g.obs)
+    (gs go : List G) (hs : g.sol = some gs) (ho : g.obs = some go) (steps tobs : List G)
+    (hb : branchTime g steps tobs 2 = .direct) (U : List (List G))
+    (interp : List G → List G → List (List G) → List G → List G → Except Err (List (List G))) :
+    go = gs ∧ preObserveTime g steps tobs U interp = (lastCol U).map Arr.vec := by
+  have he := ((direct_branch_iff g steps tobs 2).mp hb).1
+  rw [hinv, hs, ho, compareGrid_some_iff] at he
+  exact ⟨he.symm, by simp [preObserveTime, hb]⟩
+
+/-- on that branch a *single* observation time is the final time, so the last column is the
+    solution restricted to `time_obs` (the hypothesis `tobs.length = 1` cannot be dropped, see
+    `observe_repeated_final_time_counterexample`) -/
+theorem direct_branch_single_time_partial (g : Grids G) (steps tobs : List G)
+    (hb : branchTime g steps tobs 2 = .direct) (hlen : tobs.length = 1) :
+    ∃ T, steps.getLast? = some T ∧ tobs = [T] := by
+  obtain ⟨T, hT, hall⟩ := (allFinal_iff steps tobs).mp ((direct_branch_iff g steps tobs 2).mp hb).2
+  refine ⟨T, hT, ?_⟩
+  match tobs, hlen with
+  | [t], _ => simp [hall t (by simp)]
+
+/-- what an interpolation routine must do at coinciding nodes and times -/
+def Reproduces (interp : List G → List G → List (List G) → List G → List G → Except Err (List (List G))) : Prop :=
+  ∀ gs steps U go tobs W, interp gs steps U go tobs = .ok W →
+    ∀ a b i j x t, go[a]? = some x → gs[i]? = some x → tobs[b]? = some t → steps[j]? = some t →
+      (W.getD a []).getD b 0 = (U.getD i []).getD j 0
+
+/-- **observe_coinciding.**  On the interpolation branch, with any interpolant that reproduces its
+    data, the pre-map observation at an observation node/time that coincides with a solution
+    node/time is the stored solution value. -/
+theorem observe_coinciding (g : Grids G) (gs go : List G) (hs : g.sol = some gs) (ho : g.obs = some go)
+    (steps tobs : List G) (hb : branchTime g steps tobs 2 = .interp) (U : List (List G))
+    (interp : List G → List G → List (List G) → List G → List G → Except Err (List (List G)))
+    (hI : Reproduces interp) (arr : Arr G) (h : preObserveTime g steps tobs U interp = .ok arr) :
+    ∃ W, arr = .mat W ∧ ∀ a b i j x t, go[a]? = some x → gs[i]? = some x → tobs[b]? = some t →
+      steps[j]? = some t → (W.getD a []).getD b 0 = (U.getD i []).getD j 0 := by
+  simp only [preObserveTime, hb, hs, ho] at h
+  cases hW : interp gs steps U go tobs with
+  | error e => rw [hW] at h; simp [Except.map] at h
+  | ok W =>
+    rw [hW] at h
+    simp only [Except.map, Except.ok.injEq] at h
+    exact ⟨W, h.symm, hI gs steps U go tobs W hW⟩
+
+lemma indexOf?_eq_of_nodup (l : List G) (hl : l.Nodup) (i : ℕ) (x : G) (h : l[i]? = some x) :
+    indexOf? l x = some i := by
+  unfold indexOf?
+  have hi : i < l.length := by
+    by_contra hc
+    simp [List.getElem?_eq_none (Nat.le_of_not_lt hc)] at h
+  have hx : l[i] = x := by
+    rw [List.getElem?_eq_getElem hi] at h
+    simpa using h
+  have hfind : l.findIdx (fun y => decide (y = x)) = i := by
+    rw [List.findIdx_eq hi]
+    refine ⟨by simp [hx], ?_⟩
+    intro j hji
+    have hj : j < l.length := lt_trans hji hi
+    simp only [decide_eq_false_iff_not]
+    intro hjx
+    have : j = i := (List.Nodup.getElem_inj_iff hl).mp (hjx.trans hx.symm)
+    omega
+  simp [hfind, hi]
+
+/-- the leaf-data interpolant the driver runs reproduces the data at coinciding nodes/times (the
+    grids having pairwise distinct nodes) — i.e. it is an admissible instance of `Reproduces` -/
+theorem tableInterp2_reproduces (W : List (List G)) (gs steps : List G) (hg : gs.Nodup) (ht : steps.Nodup)
+    (U : List (List G)) (go tobs : List G) (V : List (List G))
+    (h : tableInterp2 W gs steps U go tobs = .ok V) :
+    ∀ a b i j x t, go[a]? = some x → gs[i]? = some x → tobs[b]? = some t → steps[j]? = some t →
+      (V.getD a []).getD b 0 = (U.getD i []).getD j 0 := by
+  intro a b i j x t ha hi hb hj
+  simp only [tableInterp2, Except.ok.injEq] at h
+  subst h
+  have ha' : a < go.length := by
+    by_contra hc; simp [List.getElem?_eq_none (Nat.le_of_not_lt hc)] at ha
+  have hb' : b < tobs.length := by
+    by_contra hc; simp [List.getElem?_eq_none (Nat.le_of_not_lt hc)] at hb
+  obtain ⟨_, hga'⟩ := List.getElem?_eq_some_iff.mp ha
+  obtain ⟨_, htb'⟩ := List.getElem?_eq_some_iff.mp hb
+  simp [List.getD_eq_getElem?_getD, ha', hb', hga', htb',
+    indexOf?_eq_of_nodup gs hg i x hi, indexOf?_eq_of_nodup steps ht j t hj]
+
+/-- steady state: with the flag set nothing is interpolated; otherwise (with an interpolant that
+    reproduces its data) coinciding nodes carry the stored solution value -/
+theorem observe_steady_direct (g : Grids G) (he : g.equal = true) (u : List G)
+    (interp : List G → List G → List G → Except Err (List G)) (om : ObsMap G) :
+    observeSteady g u interp om = om.apply (.vec u) := by
+  unfold observeSteady
+  simp [he]
+
+theorem tableInterp1_reproduces (W gs : List G) (hg : gs.Nodup) (u go V : List G)
+    (h : tableInterp1 W gs u go = .ok V) :
+    ∀ a i x, go[a]? = some x → gs[i]? = some x → V.getD a 0 = u.getD i 0 := by
+  intro a i x ha hi
+  simp only [tableInterp1, Except.ok.injEq] at h
+  subst h
+  have ha' : a < go.length := by
+    by_contra hc; simp [List.getElem?_eq_none (Nat.le_of_not_lt hc)] at ha
+  obtain ⟨_, hga'⟩ := List.getElem?_eq_some_iff.mp ha
+  simp [List.getD_eq_getElem?_getD, ha', hga', indexOf?_eq_of_nodup gs hg i x hi]
+
+/-- the observation map is applied to the restricted solution, and the time axis is squeezed away
+    afterwards, iff there is exactly one observation time -/
+theorem observe_map_then_squeeze (g : Grids G) (steps tobs : List G) (U : List (List G))
+    (interp : List G → List G → List (List G) → List G → List G → Except Err (List (List G)))
+    (om : ObsMap G) (a b : Arr G) (hpre : preObserveTime g steps tobs U interp = .ok a)
+    (hmap : om.apply a = .ok b) :
+    observeTime g steps tobs U interp om = .ok (if tobs.length = 1 then squeeze b else b) := by
+  unfold observeTime
+  simp [hpre, hmap]
+
+end observe
+
+/-- **Known finding (witness).**  Equal grids, time grid `[0, 1]`, `time_obs = [1, 1]`: the code
+    takes the no-interpolation branch and returns the single final column `[2, 4]` (shape `(2,)`),
+    whereas the solution restricted to the two requested times is `[[2, 2], [4, 4]]` (shape
+    `(2, 2)`) — which is what the same call returns as soon as one of the two times differs. -/
+theorem observe_repeated_final_time_counterexample :
+    let g : Grids ℤ := Grids.init (some [0, 1]) none
+    let U : List (List ℤ) := [[1, 2], [3, 4]]
+    observeTime g [0, 1] [1, 1] U (tableInterp2 []) .ident = .ok (.vec [2, 4])
+    ∧ (Arr.vec [2, 4] : Arr ℤ).shape = [2]
+    ∧ observeTime g [0, 1] [0, 1] U (tableInterp2 []) .ident = .ok (.mat [[1, 2], [3, 4]])
+    ∧ (Arr.mat [[1, 2], [3, 4]] : Arr ℤ).shape = [2, [1, 1].length] := by
+  decide
+
+/-! ## 6. `PDEModel` -/
+
+/-- **pipeline_eq.**  The model's forward map is observe ∘ (first component of) solve ∘ assemble,
+    for any PDE object. -/
+theorem pipeline_eq {P S O I : Type} (pde : PDEObj P S O I) (x : P) :
+    pdeModelForward pde x = (pde.solveFor x).bind fun r => pde.observe r.1 := by
+  unfold pdeModelForward
+  cases pde.solveFor x with
+  | error e => rfl
+  | ok r => rfl
+
+/-- the `info` of the solve has no influence on the model output -/
+theorem pipeline_ignores_info {P S O I J : Type} (pde₁ : PDEObj P S O I) (pde₂ : PDEObj P S O J) (x : P)
+    (hsol : (pde₁.solveFor x).map (·.1) = (pde₂.solveFor x).map (·.1)) (hobs : pde₁.observe = pde₂.observe) :
+    pdeModelForward pde₁ x = pdeModelForward pde₂ x := by
+  unfold pdeModelForward
+  cases h1 : pde₁.solveFor x with
+  | error e1 =>
+    cases h2 : pde₂.solveFor x with
+    | error e2 => rw [h1, h2] at hsol; simpa [Except.map] using hsol
+    | ok r2 => rw [h1, h2] at hsol; simp [Except.map] at hsol
+  | ok r1 =>
+    cases h2 : pde₂.solveFor x with
+    | error e2 => rw [h1, h2] at hsol; simp [Except.map] at hsol
+    | ok r2 =>
+      rw [h1, h2] at hsol
+      have : r1.1 = r2.1 := by simpa [Except.map] using hsol
+      simp [this, hobs]
+
+/-- **gradient_dispatch.**  `gradient_wrt_parameter` is used when the PDE has it (even if it also has
+    a Jacobian); otherwise `direction @ jacobian_wrt_parameter(wrt)`; otherwise `NotImplementedError`. -/
+theorem gradient_dispatch (m : ℕ) (gw : Vec R → Vec R → Vec R) (J : Vec R → Mat R) (jo : Option (Vec R → Mat R))
+    (dir wrt : Vec R) :
+    gradientFunc m ⟨some gw, jo⟩ dir wrt = .ok (gw dir wrt)
+    ∧ gradientFunc m ⟨none, some J⟩ dir wrt = .ok (vecMul m dir (J wrt))
+    ∧ gradientFunc m (⟨none, none⟩ : GradCaps R) dir wrt = .error .notImplemented :=
+  ⟨rfl, rfl, rfl⟩
+
+/-- with a Jacobian the returned vector is `Jᵀ·direction`: paired with any increment `h` of the
+    parameter it gives the direction paired with the linearised change `J h` of the model output —
+    i.e. it is the gradient of `x ↦ ⟨direction, forward x⟩` whenever `J` is the Jacobian of the
+    assemble–solve–observe pipeline -/
+theorem gradient_jacobian_is_adjoint (m k : ℕ) (J : Mat R) (dir h : Vec R) :
+    ∑ j ∈ range k, vecMul m dir J j * h j = ∑ i ∈ range m, dir i * ∑ j ∈ range k, J i j * h j := by
+  simp only [vecMul_eq, Finset.sum_mul, Finset.mul_sum]
+  rw [Finset.sum_comm]
+  exact Finset.sum_congr rfl fun i _ => Finset.sum_congr rfl fun j _ => by ring
+
+example : gradientFunc 2 ⟨none, some fun _ => fun i j => if i = j then (2 : ℤ) else 1⟩ (fun i => (i : ℤ) + 1) (fun _ => 0)
+    = .ok (vecMul 2 (fun i => (i : ℤ) + 1) fun i j => if i = j then 2 else 1) := rfl
 
 end CuqiVerif.C18
